@@ -223,6 +223,7 @@ func (w *World) consume(op Op, ch <-chan int) {
 // Teardown closes every client and stops every server (under the scheduler), so
 // that the bubble can drain.
 func (w *World) Teardown() {
+	w.E.ClearInvariants()
 	for _, c := range w.Clients {
 		if called, _ := c.closeState(); !called {
 			c := c
